@@ -63,7 +63,7 @@ for it in [i for i in items if i['kind'] == 'valid']:
         print('V %s ok accepted %s' % (it['id'], it['attr']))
     else:
         bad += 1
-        print('V %s MISMATCH expected=accepted got=%s %s' % (it['id'], (h or ['build failed'])[0][:80], it['attr']))
+        print('F %s C19 a valid attribute list does not compile: %s -> %s' % (it['id'], it['attr'], (h or ['build failed'])[0][:80]))
 if rc1 != 0 and not err1:
     print('V valid-build MISMATCH cargo check failed without a located error')
     bad += 1
@@ -86,7 +86,7 @@ for it in [i for i in items if i['kind'] == 'invalid']:
         print('V %s ok rejected %s  [%s]' % (it['id'], it['attr'], h[0].split('\n')[0][:70]))
     else:
         bad += 1
-        print('V %s MISMATCH expected=compile-error got=accepted %s (%s)' % (it['id'], it['attr'], it['why']))
+        print('F %s C19 an invalid attribute list is accepted at compile time instead of being rejected: %s (%s)' % (it['id'], it['attr'], it['why']))
 for it in [i for i in items if i['kind'] == 'valid']:
     h = hits(it, err3)
     if h:
